@@ -211,11 +211,10 @@ def GHEfull(times_shape):
                  times=times_shape, loading=NoneT(), hp_eft=ListOf(Real), dTb=ListOf(Real))
 
 
-contract(f"{G}:BaseGHE.grab_g_function", dict(self=ObjOf(f"{G}:GHE", g_gkey=Int), b_over_h=Real),
-         ensures=[("named-by-configuration", lambda E: forall(1, lambda x: True))],
-         returns=TupleOf(FnOf(1), FnOf(1)), notes="abstract here (C11): the combined g-function is a function of the stored g-function data and B/H (A-DET)")
-REG.contracts[f"{G}:BaseGHE.grab_g_function"].ensures = [
-    ("named-by-configuration", lambda E: ForAll([z3.Real("x!")], E.result[0](z3.Real("x!")) == GC(E.self.g_gkey, E.b_over_h, z3.Real("x!"))))]
+contract(f"{G}:BaseGHE.grab_g_function", dict(self=ObjOf(f"{G}:GHE", g_gkey=Int), b_over_h=Real), name=f"{G}:BaseGHE.grab_g_function#fn",
+         ensures=[("named-by-configuration", lambda E: ForAll([z3.Real("x!")], E.result[0](z3.Real("x!")) == GC(E.self.g_gkey, E.b_over_h, z3.Real("x!"))))],
+         returns=TupleOf(FnOf(1), FnOf(1)),
+         notes="abstract here (C11): the combined g-function is a function of the stored g-function data and B/H (A-DET)").applies = lambda env: "g_gkey" in env["self"].fields
 contract(f"{B_}:SingleUTube.to_single", dict(self=BheSim()), returns=ObjOf("x"), name=f"{B_}:SingleUTube.to_single#sim").applies = lambda env: "g_rb" in env["self"].fields
 contract("ghedesigner.radial_numerical_borehole:RadialNumericalBH.calc_sts_g_functions",
          dict(self=ObjOf("ghedesigner.radial_numerical_borehole:RadialNumericalBH", t_s=Real), single_u_tube=ObjOf("x")), returns=NoneT(),
